@@ -2,7 +2,7 @@
    Property theorems only.  The hook shapes (Gen/HookTable.v) are regenerated from the Go source
    on every check; the semantics of the hook language is Model/Hooks.v over Lib/Atomic.v. *)
 From Coq Require Import String.
-From Comdex Require Import Lib.Base Lib.Atomic Model.HookLang Gen.HookTable Model.Hooks Model.Sweep
+From Comdex Require Import Lib.Base Lib.Atomic Model.HookLang Gen.HookTable Gen.HookLoopExits Model.Hooks Model.Sweep
      Model.Market Proofs.HooksProofs Proofs.MarketProofs.
 From Comdex Require Model.Liquidation.
 Local Open Scope Z_scope.
@@ -46,6 +46,15 @@ Proof.
   reflexivity.
 Qed.
 Print Assumptions c15_remaining_units_processed.
+
+(* ... and that reading of a loop is the code's: the table of loop exits regenerated from the source
+   (Gen/HookLoopExits.v: every `return` / `break` / labelled branch in the body of a loop that runs a
+   wrapped unit, outside the unit's own closure) is EMPTY - no sweep can be left before its last
+   item, neither before nor after a unit has run (`if err := ApplyFuncIfNoError(..); err != nil
+   { return err }` would be a row) *)
+Theorem c15_unit_loops_have_no_exit : hook_loop_exits = nil.
+Proof. reflexivity. Qed.
+Print Assumptions c15_unit_loops_have_no_exit.
 
 (* a hook halts the chain only through a leaf that stands outside every wrap *)
 Theorem c15_hook_no_halt :
